@@ -74,6 +74,19 @@ const MacroExhaustedExpires = "Macro/exhausted-then-expired-then-sweep"
 // must the snapshot) and the subscription seeks to the snapshot.
 const MacroOrphanSnapshot = "Macro/delete-topic-snapshot-orphan-prune-seek"
 
+// MacroDoubleSeek: everything a subscription holds is acknowledged, more than
+// half of its retention passes, a seek to the beginning revives it (fresh
+// retention from the seek), it is pulled and acknowledged again, more than half
+// a retention passes again - the messages are now older than one retention
+// counted from PUBLISH but still inside the retention the first seek gave them
+// - and a second seek to the beginning must revive them once more.
+const MacroDoubleSeek = "Macro/ack-wait-seek-ack-wait-seek"
+
+// lazyAckOut is a queue-only pseudo operation: when it is popped it becomes an
+// Ack of whatever is outstanding on the subscription at THAT moment (handles
+// of a pull that is still ahead in the queue cannot be named in advance).
+const lazyAckOut = "Lazy/ack-outstanding"
+
 func names(prefix string, n int) []string {
 	out := make([]string, n)
 	for i := range out {
@@ -289,9 +302,16 @@ func newUUIDish(t *rapid.T) string {
 
 // Next draws the next operation from the current model state.
 func (g *Gen) Next() Op {
-	if len(g.queue) > 0 {
+	for len(g.queue) > 0 {
 		op := g.queue[0]
 		g.queue = g.queue[1:]
+		if op.K == lazyAckOut {
+			hs := g.handles(op.S, isOut)
+			if len(hs) == 0 {
+				continue
+			}
+			return Op{K: OpAck, S: op.S, H: hs}
+		}
 		return op
 	}
 	t, p, m := g.T, g.P, g.R.M
@@ -502,6 +522,26 @@ func (g *Gen) Next() Op {
 			}
 			g.queue = append([]Op{{K: OpSweep, Batch: 1000}}, q...)
 			return Op{K: OpAdvance, D: int64(wait)}
+		case MacroDoubleSeek:
+			var cand []string
+			for _, sb := range m.LiveSubs() {
+				if len(sb.Dels) > 0 && sb.Topic != nil && sb.Topic.Live {
+					cand = append(cand, sb.Name)
+				}
+			}
+			if len(cand) == 0 {
+				continue
+			}
+			sname := rapid.SampledFrom(cand).Draw(t, "sub")
+			ret := m.LiveSub(sname).Cfg.retention()
+			w1 := ret/2 + time.Duration(rapid.Int64Range(int64(time.Second), int64(ret/3)).Draw(t, "macro-w1"))
+			w2 := ret/2 + time.Duration(rapid.Int64Range(int64(time.Second), int64(ret/3)).Draw(t, "macro-w2"))
+			g.queue = []Op{
+				{K: OpPull, S: sname, Max: 1000}, {K: lazyAckOut, S: sname}, {K: OpAdvance, D: int64(w1)},
+				{K: OpSeekTime, S: sname, At: 0}, {K: OpPull, S: sname, Max: 1000}, {K: lazyAckOut, S: sname}, {K: OpAdvance, D: int64(w2)},
+				{K: OpSeekTime, S: sname, At: 0}, {K: OpPull, S: sname, Max: 1000},
+			}
+			return g.Next()
 		case MacroOrphanSnapshot:
 			if len(ls) == 0 {
 				continue
